@@ -93,7 +93,8 @@ func (c *compiler) write(bb *strings.Builder, i interface{}) {
 	switch t := i.(type) {
 	case time.Time:
 		if dtf, ok := c.ctx.Value("TIME_FORMAT").(string); ok {
-			bb.Write(unsafeGetBytes(t.Format(dtf)))
+			// the layout comes from the context like any other string: its literal text is data
+			bb.Write(unsafeGetBytes(template.HTMLEscaper(t.Format(dtf))))
 			return
 		}
 		bb.Write(unsafeGetBytes(t.Format(DefaultTimeFormat)))
